@@ -78,6 +78,23 @@ func atLeastOne(v ssa.Value, depth int, seen map[ssa.Value]bool) bool {
 				}
 			}
 		}
+		// a helper whose every returned value is at least one ("rate floor" helpers)
+		if f := x.Call.StaticCallee(); f != nil && f.Blocks != nil && depth < 6 {
+			n := 0
+			for _, b := range f.Blocks {
+				for _, in := range b.Instrs {
+					ret, ok := in.(*ssa.Return)
+					if !ok || len(ret.Results) != 1 {
+						continue
+					}
+					n++
+					if !atLeastOne(ret.Results[0], depth+1, seen) {
+						return false
+					}
+				}
+			}
+			return n > 0
+		}
 	case *ssa.Phi:
 		for i, e := range x.Edges {
 			if atLeastOne(e, depth+1, seen) {
